@@ -66,7 +66,14 @@ func FindCounters(fn *ssa.Function) []LoopCounter {
 }
 
 func runC12(c *Check) {
-	P := "C12"
+	LostReceiverStores(c, "C12.CFG", "message/router/middleware")
+	DefaultsApplied(c, "C12.CFG", "message/router/middleware")
+	c12All(c, "C12")
+}
+
+// c12All holds the C12 obligations (also decided under C01: a middleware of the library that turns a failed
+// attempt into a success makes the router Ack a message whose outputs were never published).
+func c12All(c *Check, P string) {
 	m := c.middleware(P, c.P.Method("message/router/middleware", "Retry", "Middleware"), "Retry.Middleware")
 	if m == nil {
 		return
@@ -190,6 +197,7 @@ func runC12(c *Check) {
 	isMax := func(v ssa.Value) bool { return AllOrigins(v, exportedFieldLoad("MaxRetries")) }
 	var ctr *LoopCounter
 	decided := 0
+	var giveUp []Edge // edges on which Retry legitimately stops retrying: retries exhausted, context ended
 	for ci := range counters {
 		lc := &counters[ci]
 		for _, t := range Tests(I) {
@@ -220,6 +228,11 @@ func runC12(c *Check) {
 			if exitTrue == exitFalse {
 				c.Undecided(P+".O3", "RETRY-BOUND", I, t.If.Pos(), "MaxRetries test", "cannot tell which edge of the MaxRetries test leaves the retry loop")
 				continue
+			}
+			if exitTrue {
+				giveUp = append(giveUp, t.True)
+			} else {
+				giveUp = append(giveUp, t.False)
 			}
 			rel := op // relation that holds on the exit edge: T rel M
 			if exitFalse {
@@ -348,6 +361,7 @@ func runC12(c *Check) {
 			re := ReachEdge(e, nil)
 			c.Report(!reachesAny(re, m.HCalls), P+".O4", "GIVE-UP-ON-CTX", I, s.Pos(), k, "when the context ends no further attempt is made")
 		}
+		giveUp = append(giveUp, w.doneEdges...)
 		c.Floor(P+".O4", "edge of the timer case", len(w.timeEdges), 1)
 		c.Floor(P+".O4", "edge of the ctx.Done() case", len(w.doneEdges), 1)
 		if w.helper != nil {
@@ -357,6 +371,17 @@ func runC12(c *Check) {
 	}
 	if len(waits) == 0 {
 		c.Floor(P+".O4", "blocking wait over exactly {ctx.Done(), timer(back-off)} in the retry loop (inline select or helper)", 0, 1)
+	}
+	// a failed attempt is given up only because the retries are used up or the context ended: no property of the
+	// error (its kind, its text) and no other condition ends the retrying early
+	if len(giveUp) > 0 {
+		for i, ret := range Returns(I) {
+			if RetNil(ret, 1) {
+				continue
+			}
+			c.Report(GuardedBy(I, ret, giveUp), P+".O3", "GIVE-UP-ONLY-WHEN-EXHAUSTED-OR-CONTEXT-ENDED", I, ret.Pos(), fmt.Sprintf("failing return#%d", i),
+				"Retry hands the handler's error on only behind the exhausted edge of the MaxRetries test or the ctx.Done() case of the wait (every failed attempt before that is retried, whatever the error is)")
+		}
 	}
 
 	// O5 hook
